@@ -357,7 +357,7 @@ func checkHistory(ctx *pbt.Ctx, c HistCase) error {
 				return fmt.Errorf("harness: %v", err)
 			}
 			jc := ctx
-			if i == 0 {
+			if prevKind == "start" {
 				jc = &pbt.Ctx{} // nothing precedes: this is the "fund" sub-check's own case
 			}
 			if err := judgeFund(jc, cc, want, tx, fq); err != nil {
